@@ -269,6 +269,8 @@ theorem KeepsDetails.stepOp {r : Realm} (h : KeepsDetails S mp r) (op : Op)
   | join k isLocal details roles cap =>
     have hk := hj k isLocal details roles cap rfl
     rw [stepOp_join]
+    split
+    · exact h
     refine ⟨?_, h.2⟩
     intro c hc
     rcases List.mem_append.mp hc with hc | hc
@@ -285,6 +287,8 @@ theorem KeepsDetails.stepOp {r : Realm} (h : KeepsDetails S mp r) (op : Op)
     · simpa [e] using h.1 c0 hc0
   | drop k =>
     rw [stepOp_drop]
+    split
+    · exact h
     split <;> exact h
   | stall k =>
     rw [stepOp_stall]
